@@ -429,3 +429,76 @@ func c07Dropped(c *Ctx, setbuf int, stream uint64) {
 	}
 	r.DistinctKey("%s/dropped%d/res%d", name, min(dropped, 3), len(res))
 }
+
+// c07ReaderRace: entries whose short ttl has elapsed but which no sweep has collected yet are read by several
+// goroutines while another goroutine re-writes each of them WITHOUT a ttl. A reader may miss (before the re-write) or
+// hit the new value; once the re-write has returned and the writes have drained, the new value - which never
+// expires - must be retrievable (ample capacity): a ttl that belonged to the previous value must not hide it.
+func c07ReaderRace(c *Ctx, readers int, stream uint64) {
+	r := c.R
+	r.Eval(1)
+	name := fmt.Sprintf("c07-readers-vs-rewrite-of-expired-r%d", readers)
+	c.J.Case(name)
+	const nk = 512
+	l, err := lab.NewLab(lab.CacheCfg{NumCounters: 10000, MaxCost: 1 << 20, BufferItems: 64, IgnoreInternalCost: true, KeyKind: "uint64", NKeys: nk, TTLTick: 1})
+	if err != nil {
+		r.Inconc(1)
+		return
+	}
+	defer l.Forget()
+	defer l.C.Close()
+	w := l.NewClient()
+	rcl := make([]*lab.Client, readers)
+	for i := range rcl {
+		rcl[i] = l.NewClient()
+	}
+	for k := 0; k < nk; k++ {
+		w.Set(k, w.NextVal(k), 1, 5*time.Millisecond)
+	}
+	w.Wait()
+	time.Sleep(15 * time.Millisecond) // all expired now; the next sweep of their bucket is 1-2 s away
+	want := make([]uint64, nk)
+	var wg sync.WaitGroup
+	start := make(chan struct{})
+	for i := range rcl {
+		wg.Add(1)
+		go func(cl *lab.Client, off int) {
+			defer wg.Done()
+			<-start
+			for j := 0; j < nk; j++ {
+				cl.Get((j + off) % nk)
+				cl.Get((j + off) % nk)
+			}
+		}(rcl[i], i*3)
+	}
+	wg.Add(1)
+	go func() {
+		defer wg.Done()
+		<-start
+		for k := 0; k < nk; k++ {
+			v := w.NextVal(k)
+			if w.Set(k, v, 1, 0) {
+				want[k] = v
+			}
+		}
+	}()
+	close(start)
+	wg.Wait()
+	w.Wait()
+	for k := 0; k < nk; k++ {
+		if want[k] == 0 {
+			continue
+		}
+		r.Obs("c07_rewrites_of_expired_entries_checked", 1)
+		v, ok := w.Get(k)
+		if !ok || v != want[k] {
+			r.Violate("C07/hidden-without-ttl/get", fmt.Sprintf("[%s] key %d had an expired, not yet collected entry; it was re-written without ttl (Set returned true) while %d goroutines were reading it; after Wait Get = (%#x, %v), want (%#x, true)", name, k, readers, v, ok, want[k]), name)
+			return
+		}
+		if d, ok := w.GetTTL(k); !ok || d != 0 {
+			r.Violate("C07/ttl-on-item-without-ttl", fmt.Sprintf("[%s] key %d re-written without ttl: GetTTL = (%v, %v), want (0, true)", name, k, d, ok), name)
+			return
+		}
+	}
+	r.DistinctKey("%s", name)
+}
